@@ -547,9 +547,14 @@ func progCase(ps progSpec, cfg Config, tag string, hide map[string]bool, ev *evi
 		tree = deptTree(c, nil) // what cycle.Build opens
 	}
 	realPops := &[]string{}
+	popsActive := new(bool)
 	if ev != nil {
 		installEvictFaults(b, *ev)
-		realPops = recordReclaimPops(b)
+		if ps.kind == 1 {
+			realPops = recordReclaimPops(b)
+		} else {
+			realPops = recordPreemptAttempts(b, popsActive)
+		}
 	}
 	ids := core.NewIds()
 	for _, n := range c.Nodes {
@@ -621,6 +626,7 @@ func progCase(ps progSpec, cfg Config, tag string, hide map[string]bool, ev *evi
 		if ai == len(c.Actions)-1 && ps.kind == 2 {
 			popped = popOrder(b.Ssn, framework.Preempt)
 		}
+		*popsActive = ai == len(c.Actions)-1
 		if ai == len(c.Actions)-1 && ps.kind == 1 && ev != nil {
 			popped = popOrder(b.Ssn, framework.Reclaim) // only for the jobs the action never popped
 		}
@@ -715,7 +721,9 @@ func progCase(ps progSpec, cfg Config, tag string, hide map[string]bool, ev *evi
 	}
 	// reclaim under Evict faults: the real pop order (read off the action itself as it ran); the jobs the
 	// action never popped follow in the order of JobsOrderByQueues before the action
-	if ev != nil && ps.kind == 1 {
+	// (preempt: the jobs the action attempted, in order, read off IsNonPreemptibleJobOverQueueQuotaFn; a job
+	// skipped by the signature shortcut or never popped follows in the precomputed order)
+	if ev != nil {
 		pos := map[string]int{}
 		for _, n := range *realPops {
 			if pos[n] == 0 {
@@ -727,7 +735,7 @@ func progCase(ps progSpec, cfg Config, tag string, hide map[string]bool, ev *evi
 			if pos[n] == 0 {
 				k++
 				pos[n] = k
-				st["rfault:pending-never-popped"]++
+				st[map[int]string{1: "rfault", 2: "pfault"}[ps.kind]+":pending-never-popped-or-skipped"]++
 			}
 		}
 		for _, j := range pend {
@@ -746,7 +754,7 @@ func progCase(ps progSpec, cfg Config, tag string, hide map[string]bool, ev *evi
 	term = fmt.Sprintf("(KProg (mkPC %s %s %s %s %s %s %s %s %s))", u.Nat(ps.kind), u.Bool(cfg.Sigs), u.Z(total), u.List(units),
 		u.List(queues), u.List(running), u.List(pending), u.List(evs), u.List(pipes))
 	if ev != nil {
-		rr = rfaultTerms(b, c, ids, calls, jobOfPod, st)
+		rr = rfaultTerms(b, c, ids, calls, jobOfPod, st, map[int]string{1: "rfault", 2: "pfault"}[ps.kind])
 		term = fmt.Sprintf("(KRFault (mkRFC %s %s %s))", term[len("(KProg "):len(term)-1], u.List(evobs), rr.statusTerm)
 		tag += "evict-oracle=" + ev.String() + " "
 	}
